@@ -117,7 +117,7 @@ fn client_source(g: &mut Rng, names: &[String], via: &str) -> String {
         _ => "(import \"lib.libsonnet\")",
     };
     let f = |g: &mut Rng| g.pick(names).clone();
-    match g.below(22) {
+    match g.below(26) {
         0 => format!("{l}.{}", f(g)),
         1 => format!("local l = {l}; [l.{}, l.{}]", f(g), f(g)),
         2 => format!("local l = {l}; {{ a: l.{}, b: l.{} }}", f(g), f(g)),
@@ -141,6 +141,11 @@ fn client_source(g: &mut Rng, names: &[String], via: &str) -> String {
         18 => format!("local l = {l}; l.guarded[\"gho\" + \"st\"]"),
         19 => format!("local l = {l}; [\"gho\" + \"st\" in l.guarded, std.objectHas(l.checked, \"gho\" + \"st\"), l.outer[\"gho\" + \"st\"]]"),
         20 => "function(o, k=\"gho\" + \"st\") o[k]".to_string(),
+        // objects merged through handles that earlier requests may already have evaluated (asserts re-run on the merge)
+        21 => "function(base, patch={ x: -7 }) base + patch".to_string(),
+        22 => "{ x: -5, shallow: 7, y: 3 }".to_string(),
+        23 => format!("{l}.guarded"),
+        24 => format!("local l = {l}; function(patch) [l.guarded + patch, l.checked + patch]"),
         _ => format!("{l}"),
     }
 }
@@ -215,6 +220,28 @@ pub fn gen_history_mode(seed: u64, with_faults: bool, session: bool) -> History 
             }
         }
     }
+    // a directed family: two objects evaluated by earlier requests are merged (or called with) through their
+    // handles by a later one - the merged object must behave as on a fresh state (asserts re-run on the new self)
+    let merge_family = g.chance(1, 4);
+    if merge_family {
+        let base = match g.below(3) {
+            0 => "{ assert self.a == 1 : \"a must stay 1\", a: 1, b: [self.a] }".to_string(),
+            1 => "(import \"lib.libsonnet\").guarded".to_string(),
+            _ => "{ local me = self, assert std.length(me.items) < 3 : \"too many items\", items: [1, 2] }".to_string(),
+        };
+        let patch = match g.below(3) {
+            0 => "{ a: 2 }",
+            1 => "{ x: -5, a: 3 }",
+            _ => "{ items+: [3, 4], a: 1 }",
+        };
+        files.insert("m_base.jsonnet".into(), base.into_bytes());
+        files.insert("m_patch.jsonnet".into(), patch.as_bytes().to_vec());
+        files.insert("m_fn.jsonnet".into(), b"function(base, patch) base + patch".to_vec());
+        // loaded first: thunk handles 0, 1, 2 (these histories contain no drops)
+        ops.push(Op::plain(Req::Load("m_base.jsonnet".into())));
+        ops.push(Op::plain(Req::Load("m_patch.jsonnet".into())));
+        ops.push(Op::plain(Req::Load("m_fn.jsonnet".into())));
+    }
     // loads first for a random subset, others interleaved later
     o.shuffle(&mut srcs);
     let upfront = 1 + o.usize_below(srcs.len());
@@ -229,7 +256,13 @@ pub fn gen_history_mode(seed: u64, with_faults: bool, session: bool) -> History 
             0..=9 => Req::Eval { thunk: h, keep: o.chance(1, 2) },
             10 | 11 => Req::Top { thunk: h, tla: if o.chance(1, 2) { vec![] } else { vec![("k".into(), false, "shallow".into())] }, keep: o.chance(1, 2) },
             12 => Req::Call { thunk: h, pos: vec![], named: vec![("cfg".into(), o.below(16) as u32)], keep: o.chance(1, 2) },
-            13 => Req::Call { thunk: h, pos: vec![o.below(16) as u32], named: vec![], keep: false },
+            13 => {
+                if o.chance(1, 2) {
+                    Req::Call { thunk: h, pos: vec![o.below(16) as u32], named: vec![], keep: false }
+                } else {
+                    Req::Call { thunk: h, pos: vec![o.below(16) as u32, o.below(16) as u32], named: vec![], keep: o.chance(1, 2) }
+                }
+            }
             14 | 15 => Req::Manifest { value: h, multiline: o.chance(1, 2) },
             16 => Req::ToThunk { value: h },
             17 => {
@@ -255,6 +288,29 @@ pub fn gen_history_mode(seed: u64, with_faults: bool, session: bool) -> History 
             }
         };
         ops.push(Op::plain(req));
+    }
+    if merge_family {
+        ops.retain(|op| !matches!(op.req, Req::DropThunk(_)));
+        // sprinkle the family's requests over the history: evaluate the operands (in either order, maybe not at all),
+        // then merge through the handles; handles 0/1/2 are the three loads above
+        let mut fam: Vec<Req> = Vec::new();
+        if o.chance(3, 4) {
+            fam.push(Req::Eval { thunk: 0, keep: true });
+        }
+        if o.chance(3, 4) {
+            fam.push(Req::Eval { thunk: 1, keep: true });
+        }
+        o.shuffle(&mut fam);
+        fam.push(Req::Call { thunk: 2, pos: vec![0, 1], named: vec![], keep: true });
+        if o.chance(1, 2) {
+            fam.push(Req::Call { thunk: 2, pos: vec![], named: vec![("patch".into(), 1), ("base".into(), 0)], keep: false });
+        }
+        let mut at = 3;
+        for r in fam {
+            at = at + o.usize_below(ops.len() - at + 1);
+            ops.insert(at.min(ops.len()), Op::plain(r));
+            at += 1;
+        }
     }
     let inner_gc = if o.chance(1, 2) { Some(*o.pick(&[10u64, 100, 500])) } else { None };
     History { world: World { files: Arc::new(files), ext }, ops, inner_gc }
